@@ -38,7 +38,7 @@ theorem class_table_add (s : TreeStats) (cls : Nat) (hc : cls < s.classes.length
 
 /-- **The program `tree_stats`**: no panic, read-only, per-class free counts sum to the fast total,
     which is the tree counters plus the counters of the present reservations. -/
-theorem tree_stats_free_sum (c : Cfg) (H : Nat → Prop) (ok : CfgOk c) (m : Mem) (inv : UpperInv0 c H m) :
+theorem tree_stats_free_sum (c : Cfg) (H : Nat → Nat) (ok : CfgOk c) (m : Mem) (inv : UpperInv0 c H m) :
     Runs m (treeStats c) (fun s m' => m = m' ∧ s.classes.length = 8 ∧ classFree s.classes = s.freeFrames ∧
       ∃ s0, runSolo (Trees.stats c) m = (m, .ok s0) ∧ s.freeFrames = s0.freeFrames + slotSum c m) :=
   treeStats_spec c m ok inv
